@@ -7,6 +7,7 @@ import MJ.Proofs.CmpF64Order
 import MJ.Proofs.CollGroup
 import MJ.Proofs.CollRuns
 import MJ.Proofs.CollX
+import MJ.Proofs.CollD
 /-!
 # C07 — Value order / equality / hash laws and the algebra of the collection filters
 
@@ -867,5 +868,169 @@ theorem filter_comparisons_tie : MJ.Gen.filterCmpCalls = [
     ("min", "Iterator::min", "", ""), ("max", "Iterator::max", "", ""),
     ("cmp_helper", "Value::cmp", "as_key_str", "ordering.reverse()"),
     ("safe_sort", "sort_by", "", "")] := by rfl
+
+/-! ## derived dictionaries: merged dictionaries (`chain`, layered contexts) and the copy `dict(m)` -/
+
+open MJ.CollD in
+/-- what a merged dictionary (`a|chain(b)`, `context! { ..a, ..b }`, `merge_maps`) FINDS is what it LISTS:
+    `merged[k]` / `k in merged` succeed exactly for the probes `Equal` to a listed key, whatever values the
+    entries hold (undefined ones included: fix 276e6ac) -/
+theorem merged_dict_lookup_iff_listed (maps : List (List (V × V))) (k : V) (hk : InRange k)
+    (h : ∀ ps ∈ maps, ∀ p ∈ ps, InRange p.1) :
+    (mergeGetV maps k).isSome = true ↔ ∃ k' ∈ mergeKeysV maps, cmpV k k' = .eq :=
+  merge_lookup_iff_listed cmpV (fun a => InRange a) (fun a ha => cmp_refl a ha)
+    (fun a b c ha hb hc h1 h2 => by rw [cmp_congr a b c ha hb hc h1]; exact h2)
+    isUndefV .undef maps k h hk
+
+open MJ.CollD in
+/-- the hypotheses are satisfiable, by the very input that failed before the fix: the only entry of the key
+    holds an undefined value, the key is listed and found -/
+example : (mergeGetV [[(.str [97], .undef)], []] (.str [97])).isSome = true ∧
+    (mergeKeysV [[(.str [97], .undef)], []]).length = 1 := by decide
+
+open MJ.CollD in
+/-- the listing of a merged dictionary holds the keys of its operands and nothing else: every operand key has an
+    `Equal` representative, every listed key comes from an operand -/
+theorem merged_dict_lists_operand_keys (maps : List (List (V × V))) (h : ∀ ps ∈ maps, ∀ p ∈ ps, InRange p.1) :
+    (∀ ps ∈ maps, ∀ p ∈ ps, ∃ k' ∈ mergeKeysV maps, cmpV p.1 k' = .eq) ∧
+    (∀ k' ∈ mergeKeysV maps, ∃ ps ∈ maps, ∃ p ∈ ps, p.1 = k') :=
+  ⟨fun ps hps p hp => mergeKeys_has cmpV maps ps hps p hp (cmp_refl _ (h ps hps p hp)),
+   fun k' hk' => mergeKeys_sub cmpV maps k' hk'⟩
+
+theorem cmp_lt_trans (a b c : V) (ha : InRange a) (hb : InRange b) (hc : InRange c)
+    (h1 : cmpV a b = .lt) (h2 : cmpV b c = .lt) : cmpV a c = .lt := by
+  rw [cmp_refines_key _ _ ha hb] at h1
+  rw [cmp_refines_key _ _ hb hc] at h2
+  rw [cmp_refines_key _ _ ha hc]
+  exact TransCmp.lt_trans h1 h2
+
+theorem cmp_lt_of_gt (a b : V) (ha : InRange a) (hb : InRange b) (h : cmpV a b = .gt) : cmpV b a = .lt := by
+  rw [cmp_refines_key _ _ ha hb] at h
+  rw [cmp_refines_key _ _ hb ha]
+  exact OrientedCmp.lt_of_gt h
+
+open MJ.CollD in
+/-- a merged dictionary lists its keys in strictly increasing order, so every key ONCE (no two listed keys are
+    `Equal`; the law behind fix 2b20d7e), and `dict(m)` iterates in strictly increasing key order -/
+theorem merged_dict_lists_key_once (maps : List (List (V × V))) (h : ∀ ps ∈ maps, ∀ p ∈ ps, InRange p.1) :
+    (mergeKeysV maps).Pairwise (fun a b => cmpV a b = .lt) :=
+  mergeKeys_sorted cmpV (fun a => InRange a) cmp_lt_trans cmp_lt_of_gt maps h
+
+open MJ.CollD in
+theorem dict_copy_sorted (ps : List (V × V)) (h : ∀ p ∈ ps, InRange p.1) :
+    ((dictCopyV ps).map (·.1)).Pairwise (fun a b => cmpV a b = .lt) :=
+  dictCopy_sorted cmpV (fun a => InRange a) cmp_lt_trans cmp_lt_of_gt ps h
+
+open MJ.CollD in
+/-- non-vacuous: two operands sharing a key and holding `1` next to `true` list three keys -/
+example : (mergeKeysV [[(.bool true, .undef), (.str [97], .none)], [(.num (.i64 1), .none), (.str [97], .undef)]]).length = 3 := by
+  decide
+
+open MJ.CollD in
+/-- the lookup as it was before fix 276e6ac violates the law (for any comparison: here `compare` on `Nat`
+    with `Option`'s `none` as the undefined value): the key is listed but not found -/
+theorem merged_dict_old_lookup_counterexample :
+    ¬ (∀ (maps : List (List (Nat × Option Nat))) (k : Nat),
+      (mergeGetOld compare Option.isNone maps k).isSome = true ↔ ∃ k' ∈ mergeKeys compare maps, compare k k' = .eq) := by
+  intro h
+  have := (h [[(1, none)]] 1).mpr ⟨1, by decide, by decide⟩
+  revert this
+  decide
+
+open MJ.CollD in
+/-- `dict(m)` holds exactly the entries of `m` when the keys of `m` are pairwise not `Equal` (which an ordered
+    map guarantees for its own keys) — keys that are `==` without being `Equal`, like `true` and `1`, stay apart
+    (fix 79eda21) -/
+theorem dict_copy_preserves_entries (ps : List (V × V))
+    (hpw : ps.Pairwise (fun p q => cmpV q.1 p.1 ≠ .eq)) : (dictCopyV ps).Perm ps :=
+  dictCopy_perm cmpV ps hpw
+
+open MJ.CollD in
+/-- non-vacuous on the input that lost an entry before the fix -/
+example : [((V.bool true), V.num (.i64 10)), (.num (.i64 1), .num (.i64 20))].Pairwise
+    (fun p q => cmpV q.1 p.1 ≠ .eq) := by decide
+
+open MJ.CollD in
+/-- collecting into the map instead (what `dict(m)` did before the fix: sort, then one entry per run of adjacent
+    `==` keys) loses an entry as soon as `==` identifies keys the order keeps apart — shown for a comparison on
+    (kind, payload) pairs with an `==` that looks at the payload only, the shape of `true == 1` -/
+theorem dict_collect_loses_entry :
+    let cmp := fun (a b : Nat × Nat) => (compare a.1 b.1).then (compare a.2 b.2)
+    let eq := fun (a b : Nat × Nat) => a.2 == b.2
+    let m : List ((Nat × Nat) × Nat) := [((0, 1), 10), ((1, 1), 20)]
+    m.Pairwise (fun p q => cmp q.1 p.1 ≠ .eq) ∧ (dictCollect cmp eq m).length = 1 ∧ (dictCopy cmp m).length = 2 := by
+  decide
+
+/-- how the source builds and queries the derived dictionaries, read off `functions.rs`, `value/merge_object.rs`
+    and `value/ops.rs`: `dict(m)` and `MergeDict::enumerate` insert one by one (`MJ.CollD.dictCopy`, `mergeKeys`;
+    collecting would de-duplicate by `==`: `dict_collect_loses_entry`), `MergeDict::get_value` finds a key whose
+    entries hold undefined values (`mergeGet`; not doing so: `merged_dict_old_lookup_counterexample`),
+    `namespace(m)` takes string keys only, `k in m` asks the object whether it has the key -/
+theorem derived_maps_tie : MJ.Gen.derivedMaps = [
+    ("dict", "insert-loop"), ("MergeDict::enumerate", "insert-loop"),
+    ("MergeDict::get_value", "last-defined-wins,undefined-entries-found"),
+    ("namespace", "as_key_str"), ("contains-map", "obj.get_value(value).is_some()")] := by rfl
+
+/-! ## the property, assembled -/
+
+/-- What is proved of the property as stated, with the gap to `C07_full` explicit:
+    * the order of template values is reflexive, antisymmetric (`cmp b a` is the mirror of `cmp a b`),
+      transitive and defined for every pair (numbers within the range of their representation);
+    * `==` holds exactly when the order says `Equal`, and `==` values hash alike — under the NAMED exclusions
+      `NoNaN` (the statement's own `NaN aside`), `SortedMaps` (BTreeMap build; under `preserve_order` the
+      recorded insertion-order findings apply) and `noClash` (a Bool facing a number: `C07_counterexample`
+      shows the statement false there, recorded finding);
+    * the collection filters obey their algebra for every input list and every total preorder;
+    * `reverse` is an involution on every enumerator arm but `RevIter` (`reverse_counterexample`: recorded finding);
+    * derived dictionaries list what they find and copies keep their entries. -/
+theorem C07_main :
+    (∀ a b c : V, InRange a → InRange b → InRange c →
+      cmpV a a = .eq ∧ cmpV b a = (cmpV a b).swap ∧ (cmpV a b ≠ .gt ∨ cmpV b a ≠ .gt) ∧
+      (cmpV a b ≠ .gt → cmpV b c ≠ .gt → cmpV a c ≠ .gt)) ∧
+    (∀ a b : V, NoNaN a → NoNaN b → SortedMaps a → SortedMaps b → noClash a b = true →
+      (eqV .btree a b = true ↔ cmpV a b = .eq) ∧ (eqV .btree a b = true → hkey a = hkey b)) ∧
+    ¬ C07_full ∧
+    (∀ {α κ : Type} (cmp : κ → κ → Ordering) [TransCmp cmp] (key : α → κ) (xs : List α),
+      (∀ rev, (Coll.sort cmp key rev xs).Perm xs) ∧
+      (Coll.sort cmp key false xs).Pairwise (fun a b => cmp (key a) (key b) ≠ .gt) ∧
+      (Coll.sort cmp key true xs).Pairwise (fun a b => cmp (key a) (key b) ≠ .lt) ∧
+      (∀ a b, [a, b].Sublist xs → cmp (key a) (key b) = .eq → [a, b].Sublist (Coll.sort cmp key true xs)) ∧
+      (Coll.unique cmp key xs).Sublist xs ∧
+      (Coll.unique cmp key xs).Pairwise (fun a b => cmp (key a) (key b) ≠ .eq) ∧
+      ((Coll.groupby cmp key xs).flatMap (·.2)).Perm xs) ∧
+    (∀ {α : Type} (xs : List α) (n : Nat), 0 < n → ∃ rs, batch xs n none = .ok rs ∧ rs.flatten = xs) ∧
+    (∀ {α : Type} (xs : List α) (count : Nat), xs.length < 18446744073709551616 → 0 < count →
+      reservable count = true → ∃ rs, slicef xs count none = .ok rs ∧ rs.length = count ∧ rs.flatten = xs) ∧
+    (∀ {α : Type} (v : EnumVar) (xs : List α), v ≠ .revIter → v ≠ .nonEnumerable → v ≠ .empty →
+      (reverseEnum v xs).bind (reverseEnum .values) = some xs) ∧
+    ¬ reverse_full ∧
+    (∀ {α : Type} (cmpa : α → α → Ordering) [TransCmp cmpa] (xs : List α) (m : α),
+      (Coll.minBy cmpa xs = some m → m ∈ xs ∧ ∀ x ∈ xs, cmpa m x ≠ .gt) ∧
+      (Coll.maxBy cmpa xs = some m → m ∈ xs ∧ ∀ x ∈ xs, cmpa m x ≠ .lt)) ∧
+    (∀ (maps : List (List (V × V))) (k : V), InRange k → (∀ ps ∈ maps, ∀ p ∈ ps, InRange p.1) →
+      ((MJ.CollD.mergeGetV maps k).isSome = true ↔ ∃ k' ∈ MJ.CollD.mergeKeysV maps, cmpV k k' = .eq)) ∧
+    (∀ ps : List (V × V), ps.Pairwise (fun p q => cmpV q.1 p.1 ≠ .eq) → (MJ.CollD.dictCopyV ps).Perm ps) := by
+  refine ⟨?_, ?_, C07_counterexample, ?_, ?_, ?_, ?_, reverse_counterexample, ?_, ?_, ?_⟩
+  · intro a b c ha hb hc
+    exact ⟨cmp_refl a ha, cmp_antisymm a b ha hb, cmp_total a b ha hb, cmp_trans a b c ha hb hc⟩
+  · intro a b ha hb sa sb hc
+    exact C07_partial a b ha hb sa sb hc
+  · intro α κ cmp _ key xs
+    obtain ⟨u1, u2, _, _⟩ := unique_subseq_nodup_first cmp key xs
+    exact ⟨fun rev => sort_perm cmp key rev xs, sort_sorted cmp key xs, sort_reverse_sorted cmp key xs,
+      fun a b hs he => sort_reverse_stable cmp key xs a b hs he, u1, u2, (groupby_partition cmp key xs).2.1⟩
+  · intro α xs n hn
+    exact batch_concat xs n hn
+  · intro α xs count hlen hc hr
+    exact (slicef_concat xs count hlen).2 hc hr
+  · intro α v xs h1 h2 h3
+    exact ((reverse_partial v xs).1 h1 h2 h3).2.1
+  · intro α cmpa _ xs m
+    exact ⟨fun h => ⟨min_mem cmpa xs m h, min_le_all cmpa xs m h⟩,
+      fun h => ⟨(max_ge_all cmpa xs m h).2, (max_ge_all cmpa xs m h).1⟩⟩
+  · intro maps k hk h
+    exact merged_dict_lookup_iff_listed maps k hk h
+  · intro ps hpw
+    exact dict_copy_preserves_entries ps hpw
 
 end MJ.C07
